@@ -10,9 +10,22 @@ pub struct DpQuery {
     pub features: Vec<&'static str>,
     /// grouping keys are all public-valued (or there is none): C09 can compare with the original
     pub public_keys_only: bool,
+    /// aliases of the grouping keys in the output
+    pub keys: Vec<String>,
+    /// (output alias, kind, argument) of the aggregates
+    pub aggs: Vec<(String, &'static str, String)>,
+    /// FROM ... WHERE ... of the aggregation (to recompute reference statistics)
+    pub from_where: String,
+    /// GROUP BY expressions
+    pub group_exprs: Vec<String>,
+}
+
+thread_local! {
+    static LAST_AGGS: std::cell::RefCell<Vec<(String, &'static str, String)>> = std::cell::RefCell::new(vec![]);
 }
 
 fn agg_list(r: &mut Rng, cols: &[(&str, bool)], feats: &mut Vec<&'static str>, allow_distinct: bool) -> Vec<String> {
+    LAST_AGGS.with(|a| a.borrow_mut().clear());
     // cols: (sql of a numeric column, nullable)
     let n = 1 + r.usize(3);
     let mut out = vec![];
@@ -44,6 +57,26 @@ fn agg_list(r: &mut Rng, cols: &[(&str, bool)], feats: &mut Vec<&'static str>, a
                 format!("AVG(DISTINCT {})", c)
             }
         };
+        let kind: &'static str = if e.starts_with("COUNT(*)") {
+            "count_star"
+        } else if e.starts_with("COUNT(DISTINCT") {
+            "count_distinct"
+        } else if e.starts_with("COUNT(") {
+            "count"
+        } else if e.starts_with("SUM(DISTINCT") {
+            "sum_distinct"
+        } else if e.starts_with("SUM(") {
+            "sum"
+        } else if e.starts_with("AVG(DISTINCT") {
+            "avg_distinct"
+        } else if e.starts_with("AVG(") {
+            "avg"
+        } else if e.starts_with("VARIANCE(") {
+            "variance"
+        } else {
+            "stddev"
+        };
+        LAST_AGGS.with(|a| a.borrow_mut().push((format!("m{}", k), kind, c.to_string())));
         out.push(format!("{} AS m{}", e, k));
     }
     out
@@ -143,6 +176,10 @@ pub fn gen_dp_query(r: &mut Rng, w: &DpWorld) -> DpQuery {
     } else {
         format!(" GROUP BY {}", chosen.iter().map(|(k, _)| k.to_string()).collect::<Vec<_>>().join(", "))
     };
+    let keys_alias: Vec<String> = (0..chosen.len()).map(|i| format!("k{}", i)).collect();
+    let group_exprs: Vec<String> = chosen.iter().map(|(k, _)| k.to_string()).collect();
+    let from_where = format!("{}{}", from, wher);
+    let aggs_meta = LAST_AGGS.with(|a| a.borrow().clone());
     let mut sql = format!("SELECT {} FROM {}{}{}", items.join(", "), from, wher, group);
     if r.chance(1, 8) {
         feats.push("having");
@@ -154,7 +191,7 @@ pub fn gen_dp_query(r: &mut Rng, w: &DpWorld) -> DpQuery {
         feats.push("nested_dp");
         sql = format!("WITH dpq AS ({}) SELECT * FROM dpq", sql);
     }
-    DpQuery { sql, features: feats, public_keys_only }
+    DpQuery { sql, features: feats, public_keys_only, keys: keys_alias, aggs: aggs_meta, from_where, group_exprs }
 }
 
 /// Queries for privacy-unit-preserving rewriting (no final aggregation required)
@@ -212,7 +249,7 @@ pub fn gen_pup_query(r: &mut Rng, _w: &DpWorld) -> DpQuery {
             "SELECT u.id AS uid, s.rate AS rate FROM users AS u CROSS JOIN shops AS s".to_string()
         }
     };
-    DpQuery { sql, features: feats, public_keys_only: true }
+    DpQuery { sql, features: feats, public_keys_only: true, keys: vec![], aggs: vec![], from_where: String::new(), group_exprs: vec![] }
 }
 
 pub fn gen_dp_parameters(r: &mut Rng) -> DpParameters {
